@@ -51,6 +51,8 @@ func childMain(args []string) {
 		}
 	case "mode":
 		modeProbe(r)
+	case "slow":
+		slowForward(r)
 	case "faulty":
 		for i := 0; i < *n; i++ {
 			faultyForward(r, i)
@@ -616,6 +618,74 @@ func faultyForward(r *rand.Rand, idx int) {
 		}
 	}
 	emit(map[string]interface{}{"kind": "faulty-ok", "threads": nth})
+}
+
+// slowForward: the upstream answers one raw request only after 5.5 s (it does answer).  The caller of that request
+// gets that answer; the clients that were waiting meanwhile, and everybody afterwards, get the replies to their OWN requests.
+func slowForward(r *rand.Rand) {
+	stop := watchdog("history with an upstream reply that takes 5.5 s", 40*time.Second)
+	defer stop()
+	for _, viaConn := range []bool{false, true} {
+		s, err := newSUT(viaConn, false, nil)
+		if err != nil {
+			emit(map[string]interface{}{"kind": "setup-error", "error": err.Error()})
+			return
+		}
+		nth := 3
+		callers := make([]caller, nth)
+		for t := range callers {
+			if callers[t], err = s.caller(); err != nil {
+				emit(map[string]interface{}{"kind": "setup-error", "error": err.Error()})
+				s.close()
+				return
+			}
+		}
+		var wg sync.WaitGroup
+		problems := make([]string, nth)
+		started := make(chan struct{})
+		for t := range callers {
+			wg.Add(1)
+			go func(t int) {
+				defer wg.Done()
+				c := callers[t]
+				if t == 0 {
+					tag := newTag()
+					req := append([]byte{slowMark, 5500 >> 8, 5500 & 0xff}, tag...)
+					close(started)
+					resp, err := c.Forward(req)
+					switch {
+					case err != nil:
+						problems[t] = fmt.Sprintf("the request the upstream answered after 5.5 s: error %q instead of its reply", err.Error())
+					case !bytes.Equal(resp, append([]byte{echoMark}, req...)):
+						problems[t] = "the request the upstream answered after 5.5 s: reply is not the echo of this request: " + describeReply(resp)
+					}
+				} else {
+					<-started
+					time.Sleep(time.Duration(100*t) * time.Millisecond)
+				}
+				for k := 0; k < 2; k++ {
+					if ok, d := forwardTagged(c, r); !ok {
+						problems[t] = fmt.Sprintf("client %d, beside / after the slow reply: %s", t, d)
+					}
+				}
+				if _, err := c.List(); err != nil && problems[t] == "" {
+					problems[t] = fmt.Sprintf("client %d, List after the slow reply: %v", t, err)
+				}
+			}(t)
+		}
+		wg.Wait()
+		s.close()
+		bad := false
+		for _, p := range problems {
+			if p != "" {
+				bad = true
+				emit(map[string]interface{}{"kind": "slow-problem", "what": p, "via_connections": viaConn})
+			}
+		}
+		if !bad {
+			emit(map[string]interface{}{"kind": "slow-ok", "via_connections": viaConn})
+		}
+	}
 }
 
 func modeProbe(r *rand.Rand) {
